@@ -25,7 +25,7 @@ class StopAfterPay:
 def main(tier, seed, args):
     rep = Report(PID, tier, seed, 'model_checking')
     c = ctx('on')
-    rep.bounds = {'htlcs_x_block_arrivals': '1x1, 2x1' if tier == 'quick' else '1x2, 2x2',
+    rep.bounds = {'htlcs_x_block_arrivals': '1x1, 2x1' if tier == 'quick' else '1x2, 1x3, 2x1 (new or stale heights); 2x2 (new tips only)',
                   'values': 'expiries, heights, deltas fully symbolic (u32/u16)', 'outside': 'more HTLCs / more block arrivals'}
     rep.assumptions = ['heights reach the plugin through the crate\'s own update_height (run from MIR as a task); a height told may be new or stale; the budget is measured against the highest height whose processing has finished', 'node + tokio contracts',
                        '"held when the payment was initiated" = listeners registered when the lifecycle reads the table after payment_ready']
@@ -33,17 +33,33 @@ def main(tier, seed, args):
     budget = 440 if tier == 'quick' else 3000
     configs = []
     mons = lambda: [ExpiryBudget(), NoPayAfterRejection(('expiry',)), StopAfterPay(), Coverage(['pay'])]
-    # (3 HTLCs x 1 height did not finish in 50 min, 730 000 paths: outside the bound)
-    shapes = [(1, 1), (2, 1)] if tier == 'quick' else [(1, 2), (2, 2)]
+    # (3 HTLCs x 1 height did not finish in 50 min, 730 000 paths; 2 x 2 with stale heights needs 43-50 min: outside the bound)
+    shapes = [(1, 1, True), (2, 1, True)] if tier == 'quick' else [(1, 2, True), (1, 3, True), (2, 1, True), (2, 2, False)]
     import os
     if os.environ.get('VERIF_C04_SHAPES'):      # development aid: time one shape
-        shapes = [tuple(int(x) for x in sh.split('x')) for sh in os.environ['VERIF_C04_SHAPES'].split(',')]
-    for n, b in shapes:
+        shapes = [tuple(int(x) for x in sh.split('x')) + (True,) for sh in os.environ['VERIF_C04_SHAPES'].split(',')]
+    for n, b, stale in shapes:
         cfg, pc = cfg_symbolic(n, b)
-        configs.append(('expiry[%d htlc%s,%d block%s]' % (n, '' if n == 1 else 's', b, '' if b == 1 else 's'), cfg, pc, mons(),
-                        {} if tier == 'quick' else {'max_states': 1500000}))
+        cfg['stale_blocks'] = stale
+        configs.append(('expiry[%d htlc%s,%d height%s told%s]' % (n, '' if n == 1 else 's', b, '' if b == 1 else 's', '' if stale else ', new tips only'),
+                        cfg, pc, mons(), {} if tier == 'quick' else {'max_states': 1500000}))
+    # restart: replayed HTLCs of an interrupted, dead attempt, relative expiries symbolic -- one that is now too low must
+    # still keep the resumed set from being paid
+    from .c07 import cfg_stored
+    cfg, pc = cfg_stored('pending')
+    for sp in cfg['htlcs']:
+        sp.cltv_rel = sym.var('rel%d' % sp.idx)
+        pc.append(sym.and_(sym.le(0, sp.cltv_rel), sym.le(sp.cltv_rel, 2000)))
+    configs.append(('expiry[2 replayed htlcs, stored pending]', cfg, pc, [ExpiryBudget(), NoPayAfterRejection(('expiry',)), StopAfterPay(), Coverage(['pay'])], {}))
     scen_common.run_configs(rep, PID, c, configs, budget)
     finish(rep, [c], './check C04 --tier ' + tier)
+
+def height_use_stage(rep, pid, c, budget=400):
+    """The height that bounds a pay request is the highest one processed when the payment is initiated (1 HTLC, 1 height
+    told at any point of the lifecycle, new or stale).  Shared with C19 (safety margin applied) and C20 (height used)."""
+    cfg, pc = cfg_symbolic(1, 1)
+    scen_common.run_configs(rep, pid, c, [('height used for the pay request[1 htlc, 1 height told]', cfg, pc,
+                                           [ExpiryBudget(), StopAfterPay(), Coverage(['pay'])], {})], budget)
 
 def replay_cex(path):
     return scen_common.replay_cex(PID, path)
